@@ -272,6 +272,56 @@ def options_stage(tools, work, rep, ev, tier, rng, cfg):
                 key = "tar2sqfs-root-becomes-symlink-target" if "points at" in bad else "tar2sqfs-root-becomes"
                 rep.violation(key, "tar2sqfs %s%son the archive %s: %s" % ("--root-becomes r " if c["rb"] else "", "--no-symlink-retarget " if c["nr"] else "",
                               [("/".join(e["path"]), e["kind"], e["tgt"]) for e in c["arch"]], bad), artefact=f, data={"case": c})
+    # ---- tar2sqfs attribute options: -k (no keep time), -x (no xattr), with / without --root-becomes ----
+    write_cfg(cfg, spec="Spec", constants=dict(OC, Side='"attr"', MaxEntries=1), invariants=["AttrOptionsHonoured"], deadlock=False)
+    r = run_tlc("TarOpts", cfg, workers=4, timeout=600)
+    ev.tlc(r, "TarOpts attr")
+    if not r["ok"]:
+        print("MODEL-FAILURE: TarOpts violates %s" % r["violated"])
+        return None
+    write_cfg(cfg, spec="Spec", constants=dict(OC, Side='"attr"', MaxEntries=1, Emit=True), invariants=["EmitAttr"], deadlock=False)
+    r = run_tlc("TarOpts", cfg, workers=1, timeout=600)
+    acases = [json.loads(t) for t in sorted(set(m.encode().decode("unicode_escape") for m in re.findall(r'<<"ATTR", "((?:[^"\\\\]|\\\\.)*)">>', r["out"])))]
+    ev.set("tar2sqfs_attribute_option_cases", len(acases))
+
+    def attr(i):
+        c = acases[i]
+        e = c["e"]
+        name = "/".join(e["path"]).encode()
+        arch = b""
+        if e["xa"]:
+            arch += tarfmt.pax([(b"SCHILY.xattr.user.k", b"v%d" % i)])
+        if e["kind"] == "dir":
+            arch += tarfmt.header(name + b"/", b"5", mode=0o755, mtime=e["mtime"])
+        else:
+            arch += tarfmt.header(name, b"0", size=3, mtime=e["mtime"]) + tarfmt.pad(b"abc")
+        arch += tarfmt.terminator()
+        out = "%s/attr%d.sqfs" % (work, i)
+        args = (["-r", "r"] if c["rb"] else []) + (["-k"] if c["nk"] else []) + (["-x"] if c["nx"] else [])
+        rc, o, e2 = sh([tools + "/tar2sqfs", "-q", "-f"] + args + [out], stdin=arch, timeout=30)
+        if c["refused"]:
+            return i, None if rc != 0 else "accepted although the new root is not a directory", args
+        if rc != 0:
+            return i, "tar2sqfs fails: %s" % e2.decode(errors="replace")[-120:], args
+        t = sqfsimg.load(out).tree(with_content=False)
+        os.unlink(out)
+        for n in c["out"]:
+            g = t.get("/".join(n["path"]).encode())
+            if g is None:
+                return i, "entry /%s missing from the image" % "/".join(n["path"]), args
+            if g["mtime"] != n["mtime"]:
+                return i, "entry /%s has time stamp %d, specification %d" % ("/".join(n["path"]), g["mtime"], n["mtime"]), args
+            if bool(g["xattrs"]) != n["xa"]:
+                return i, "entry /%s %s an xattr, specification: %s" % ("/".join(n["path"]), "has" if g["xattrs"] else "lacks", n["xa"]), args
+        return i, None, args
+
+    with ThreadPoolExecutor(max_workers=16) as ex:
+        for i, bad, args in ex.map(attr, range(len(acases))):
+            n += 1
+            if bad:
+                rep.violation("tar2sqfs-attribute-options", "tar2sqfs %s on one %s entry %s (mtime %d, xattr %s): %s"
+                              % (" ".join(args) or "(no options)", acases[i]["e"]["kind"], "/".join(acases[i]["e"]["path"]), acases[i]["e"]["mtime"], acases[i]["e"]["xa"], bad),
+                              data={"case": acases[i]})
     # ---- sqfs2tar side ----
     write_cfg(cfg, spec="Spec", constants=dict(OC, Side='"s2t"', Emit=True, MaxEntries=1), invariants=["EmitS2T"], deadlock=False)
     r = run_tlc("TarOpts", cfg, workers=1, timeout=900)
